@@ -11,6 +11,7 @@ trap 'cd /; git -C /repo worktree remove --force '$D'/repo 2>/dev/null; rm -rf '
 git -C $D/repo apply "$PATCH"
 rsync -a --exclude target /verif/harness/ $D/harness/
 sed -i "s|/repo/marwood|$D/repo/marwood|" $D/harness/Cargo.toml
+export VERIF_MAX_HEAP=${VERIF_MAX_HEAP:-3g}
 export VERIF_HARNESS=$D/harness VERIF_WORK=$D/work VERIF_EVID=$D/evidence VERIF_REPLAYS=$D/replays
 set +e
 /verif/bin/check $ID $TIER > $D/out.txt 2>&1
